@@ -24,12 +24,15 @@ func init() {
 	register(&Check{ID: "C20", Level: "model_checking", Run: runC20, Replay: replayC20})
 }
 
-var c20KindNames = []string{"Id", "Dot", "Add3", "Call", "Clone", "RenderWithSharedFile", "Tag", "Line", "Case", "Block"}
+var c20KindNames = []string{"Id", "Dot", "Add3", "Call", "Clone", "RenderWithSharedFile", "Tag", "Line", "Case", "Block", "AddSpread", "QualSameName"}
 
 // Two alphabets (operation kinds on any pool member) with their pool sizes: the general one, and
 // one of clause-like tokens whose rendering depends on their neighbours (Line, Case, Block).
-var c20Alphabets = [][]int{{0, 1, 2, 3, 4, 5, 6}, {0, 1, 7, 8, 9, 4}}
-var c20Pools = []int{4, 3}
+// The third alphabet: items spread from ONE caller-owned list (with a nil in the middle) that every
+// such operation of the history reuses, and qualified identifiers whose paths differ per statement
+// but share the package name.
+var c20Alphabets = [][]int{{0, 1, 2, 3, 4, 5, 6}, {0, 1, 7, 8, 9, 4}, {0, 3, 10, 11, 4}}
+var c20Pools = []int{4, 3, 3}
 
 // the alphabet in force (searches run one after another)
 var (
@@ -39,6 +42,15 @@ var (
 
 func c20Use(alphabet int) {
 	c20Alpha, c20Pool = c20Alphabets[alphabet], c20Pools[alphabet]
+}
+
+func c20HasKind(k int) bool {
+	for _, x := range c20Alpha {
+		if x == k {
+			return true
+		}
+	}
+	return false
 }
 
 func c20Kind(op int) int { return c20Alpha[op%len(c20Alpha)] }
@@ -70,6 +82,11 @@ func c20Apply(s *jen.Statement, t c20Tok) {
 		s.Case(jen.Id(t.name))
 	case 9:
 		s.Block(jen.Id(t.name))
+	case 10:
+		s.Add(jen.Id("sa"), nil, jen.Id("sb"), jen.Id("sc"))
+	case 11:
+		// name = t<statement>_<n>: the path is particular to the statement, the package name is not
+		s.Qual("p"+t.name[1:strings.Index(t.name, "_")]+"/codec", "X"+t.name)
 	}
 }
 
@@ -116,6 +133,7 @@ type c20Model struct {
 }
 
 type c20World struct {
+	spread []jen.Code // the caller-owned list that every AddSpread of the history spreads
 	stmts  []*jen.Statement
 	model  []*c20Model
 	lastOp int
@@ -199,6 +217,12 @@ func c20Build(hist []int) (w *c20World, ok bool) {
 			w.model = append(w.model, &c20Model{parent: si, snap: w.accept(si), snapFlat: w.flat(si)})
 		case 5:
 			c20WithFile(s, w.shared)
+		case 10:
+			if w.spread == nil {
+				w.spread = []jen.Code{jen.Id("sa"), nil, jen.Id("sb"), jen.Id("sc")}
+			}
+			s.Add(w.spread...)
+			m.own = append(m.own, c20Tok{kind, "spread"})
 		default:
 			t := c20Tok{kind, fmt.Sprintf("t%d_%d", si, len(m.own))}
 			c20Apply(s, t)
@@ -263,10 +287,28 @@ func c20Invariant(w *c20World) string {
 			return fmt.Sprintf("s%d (%s, len %d cap %d) renders %q, acceptable: %s", i, kind, len(*s), cap(*s), got, strings.Join(want, " or "))
 		}
 	}
-	// rendering with the File shared by the history must equal rendering with a fresh File
+	// rendering with the File shared by the history must equal rendering with a fresh File (not
+	// in the alphabet with same-named packages, where a shared File rightly numbers them)
 	for i, s := range w.stmts {
+		if c20HasKind(11) {
+			break
+		}
 		if a, b := c20WithFile(s, w.shared), c20WithFile(s, jen.NewFile("")); a != b {
 			return fmt.Sprintf("s%d rendered with the File shared by the history gives %q, with a fresh File %q", i, a, b)
+		}
+	}
+	// stand-alone rendering (GoString) agrees with rendering with a fresh File
+	for i, s := range w.stmts {
+		fresh := jh.Catch(func() (string, error) {
+			var b bytes.Buffer
+			err := s.RenderWithFile(&b, jen.NewFile(""))
+			return b.String(), err
+		})
+		if !fresh.OK() {
+			continue
+		}
+		if gs := jh.Catch(func() (string, error) { return s.GoString(), nil }); gs.Key() != fresh.Key() {
+			return fmt.Sprintf("s%d: GoString gives %q, RenderWithFile with a fresh File %q", i, gs, fresh)
 		}
 	}
 	if w.lastOp >= 0 && c20Kind(w.lastOp) == 4 {
@@ -287,7 +329,7 @@ func runC20(r *ev.Recorder) {
 		r.SetDeadline(5 * 60 * 1e9)
 	}
 	r.Rule = fmt.Sprintf("explicit-state BFS over the real Statement API: pool of <= %d statements (one original Id(r) plus clones, clones of clones included); operations on any pool member: "+
-		"Id (1 token), Dot (2), Add(x,y,z) (3), Call (1 group), Tag (1), Clone, RenderWithFile with one File shared by the whole history; a second alphabet of tokens whose rendering depends on their neighbours - Id, Dot, Line, Case, Block (a clause body directly after a Case in the same statement; as the first token of a clone of a statement ending in Case both renderings are accepted), Clone - over a pool of 3; two roots (Id(r) and an empty Null() original, the latter one level less deep); all histories of length <= %d, de-duplicated on (parent, len, cap, raw rendering, the model's set of acceptable parent renderings at clone time) of every statement - the oracle's own state is part of the key, since histories that leave equal statements but different acceptable sets have different futures. "+
+		"Id (1 token), Dot (2), Add(x,y,z) (3), Call (1 group), Tag (1), Clone, RenderWithFile with one File shared by the whole history; a second alphabet of tokens whose rendering depends on their neighbours - Id, Dot, Line, Case, Block (a clause body directly after a Case in the same statement; as the first token of a clone of a statement ending in Case both renderings are accepted), Clone - over a pool of 3; a third alphabet - Id, Call, Clone, Add(list...) of one caller-owned list with a nil in its middle that every such operation reuses, and Qual with a path particular to the statement but a shared package name - over a pool of 3, with GoString compared to RenderWithFile(fresh File); two roots (Id(r) and an empty Null() original, the latter one level less deep); all histories of length <= %d, de-duplicated on (parent, len, cap, raw rendering, the model's set of acceptable parent renderings at clone time) of every statement - the oracle's own state is part of the key, since histories that leave equal statements but different acceptable sets have different futures. "+
 		"Invariant in every state (list model whose token texts come from twins built on the real API without any Clone): an original renders like a twin built by the same appends; a clone renders its parent (as of clone time or as of now - the property leaves that open) followed by its own tokens as they render alone, or like a twin on which the parent's and its own appends were made directly; "+
 		"a fresh clone renders like its original; every statement rendered with the shared File equals its rendering with a fresh File. Plus chains of 2..1000 nested clones, and 1,820 nesting cases: originals of 1..13 items, two clones with tails of 0..3 items, one nested as a call argument inside the other at every position, rendered twice. Slice growth 1->2->4->8 makes cap > len reachable within 3 appends", c20Pool, depth)
 	r.Assume = []string{"both snapshot and live-view semantics of Clone are accepted (the property does not choose)", "histories longer than the depth bound are outside the bound"}
